@@ -16,7 +16,7 @@ import (
 func init() {
 	Register(&Prop{ID: "C47", Title: "Stateless validation and decoders never panic",
 		Technique: "call-graph reachability (static callees plus ibc-go implementers of ibc-go interfaces) from every stateless-validation method and every parser/decoder entry point, with an SSA lint for constructs that can panic in ibc-go's own code: explicit panic, type assertion without comma-ok, calls to dependency functions documented to panic (Must*, constructors that validate by panicking), integer division by a non-constant, index/slice expressions not covered by a recognised bounds idiom, and dereferences of the result of a comma-ok type assertion / map lookup without a dominating success test (built-in positive and negative examples on every run); frozen allow-list with one reason per construct",
-		LevelText: "Decides that no function of ibc-go reachable from a ValidateBasic/Validate method of a message, packet-data, acknowledgement, metadata or genesis type, or from the identifier/height/denomination parsers and the packet-data, memo, metadata, callback-data and ABI decoders, contains: an explicit panic, an unchecked type assertion, a call to a dependency function that panics on bad input, a division whose divisor is not a non-zero constant, or an index/slice operation outside the recognised safe idioms (range variable of the indexed value, constant index under a dominating length test, index bounded by a dominating comparison with len, full or prefix slice bounded by len) — except the allow-listed constructs, each with its reason. Also decides one class of nil dereference: the value of a comma-ok type assertion or of a map lookup with pointer/interface values is dereferenced only where a dominating test established that the operation succeeded (or that the value is not nil). Dependencies (protobuf, amino, json, abi, big-number and SDK helper code) are trusted not to panic on their own; other nil-pointer dereferences (nested protobuf fields, values that flow through variables or calls) are not decided.",
+		LevelText: "Decides that no function of ibc-go reachable from a ValidateBasic/Validate method of a message, packet-data, acknowledgement, metadata or genesis type, or from the identifier/height/denomination parsers and the packet-data, memo, metadata, callback-data and ABI decoders, contains: an explicit panic, an unchecked type assertion, a call to a dependency function that panics on bad input, a division whose divisor is not a non-zero constant, or an index/slice operation outside the recognised safe idioms (range variable of the indexed value, constant index under a dominating length test, index bounded by a dominating comparison with len, full or prefix slice bounded by len) — except the allow-listed constructs, each with its reason. Also decides one class of nil dereference: the value of a comma-ok type assertion, of a map lookup with pointer/interface values, or of a pointer/interface variable that encoding/json decoded into (JSON null stores nil without an error) is dereferenced only where a dominating test established that the operation succeeded (or that the value is not nil). Dependencies (protobuf, amino, json, abi, big-number and SDK helper code) are trusted not to panic on their own; other nil-pointer dereferences (nested protobuf fields, values that flow through variables or calls) are not decided.",
 		Note:      "go/types + go/ssa", Design: "§5 C47", Run: runC47})
 }
 
@@ -67,7 +67,12 @@ var c47Entries = []string{
 
 // built-in examples for the nil-dereference part of the lint (expected count on the tree: zero)
 const nilDerefExamples = `package selftest
+import "encoding/json"
 type T struct{ A int }
+func jsonNull(bz []byte) (int, error) { p := &T{}; if err := json.Unmarshal(bz, &p); err != nil { return 0, err }; return p.A, nil }
+func jsonNullCopy(bz []byte) (T, error) { var p *T; if err := json.Unmarshal(bz, &p); err != nil { return T{}, err }; return *p, nil }
+func jsonChecked(bz []byte) (int, error) { var p *T; if err := json.Unmarshal(bz, &p); err != nil { return 0, err }; if p == nil { return 0, nil }; return p.A, nil }
+func jsonValue(bz []byte) (int, error) { var v T; if err := json.Unmarshal(bz, &v); err != nil { return 0, err }; return v.A, nil }
 type I interface{ M() int }
 func unchecked(x any) int { v, _ := x.(*T); return v.A }
 func uncheckedCopy(x any) T { v, _ := x.(*T); return *v }
@@ -81,7 +86,7 @@ func mapOk(m map[string]*T) int { if v, ok := m["k"]; ok { return v.A }; return 
 
 func runC47(c *Ctx) {
 	c.lintSelfTest("C47/self-test/nil-dereference", nilDerefExamples,
-		map[string]bool{"unchecked": true, "uncheckedCopy": true, "uncheckedIface": true, "mapMiss": true, "checked": false, "checkedAnd": false, "checkedNil": false, "mapOk": false},
+		map[string]bool{"jsonNull": true, "jsonNullCopy": true, "jsonChecked": false, "jsonValue": false, "unchecked": true,"uncheckedCopy": true, "uncheckedIface": true, "mapMiss": true, "checked": false, "checkedAnd": false, "checkedNil": false, "mapOk": false},
 		func(fn *ssa.Function) int { return len(nilDerefs(fn)) })
 	c47Used = map[string]bool{}
 	for _, which := range []string{"main", "wasm"} {
